@@ -59,6 +59,7 @@ def random_partition_alignment(pa, rng, cont):
     while any(pools.values()):
         t = [(a, pools[a].pop()) if pools[a] and rng.random() < 0.7 else (a, None) for a in names]
         if any(u is not None for _, u in t):
+            rng.shuffle(t)        # the order in which annotators are listed inside a unitary alignment is arbitrary
             uas.append(UnitaryAlignment(t))
     return Alignment(uas, cont)
 
@@ -77,6 +78,14 @@ def run(rep, tier, seed, pa):
         catid = lambda l: ids[l]
         als = [("best", cont.get_best_alignment(dissim)), ("soft", cont.get_best_soft_alignment(dissim)),
                ("random", random_partition_alignment(pa, rng, cont))]
+        # metamorphic: re-listing the slots of every tuple of the best alignment must not change the value (C12 slot-order theorem)
+        from pygamma_agreement.alignment import Alignment, UnitaryAlignment
+        relisted = Alignment([UnitaryAlignment(rng.sample(ua.n_tuple, len(ua.n_tuple))) for ua in als[0][1].unitary_alignments], cont)
+        for category in [None] + labels[:1]:
+            a, b = als[0][1].gamma_k_disorder(dissim, category), relisted.gamma_k_disorder(dissim, category)
+            if not close(a, b, TAU2):
+                rep.violation("slot-order", {"units": case["units"], "dissim": case["spec"], "category": category, "values": [float(a), float(b)]},
+                              "gamma_k_disorder changes when the slots of the unitary alignments are re-listed: %r vs %r" % (float(a), float(b)))
         for kind, al in als:
             for category in [None] + labels + ["__absent__"]:
                 try:
